@@ -14,7 +14,7 @@ for id in $ids; do
   out=$(./check "$prop" --tier quick 2>&1); code=$?
   git -C /repo reset -q --hard HEAD; git -C /repo clean -fdq crates 2>/dev/null
   case $code in
-    1) echo "$id $prop detected $(echo "$out" | grep -m1 -o 'clause=[^ ]*')";;
+    1) echo "$id $prop detected $(echo "$out" | grep -a -m1 -o 'clause=[^ ]*')";;
     0) echo "$id $prop MISSED";;
     *) echo "$id $prop machinery-exit-$code";;
   esac
